@@ -8,7 +8,7 @@ Over the literal poll-level model `Model/Async.lean` of `async_io::Request`
 (`new`, `poll_output`, `poll_input`, `AsyncRead`/`AsyncBufRead`, `set_stream`, `writeable`,
 `output_stream`), which sits on the stream-parser model.  Helper lemmas: `Proofs/AsyncRead.lean`.
 
-* §1 `AInv`, `LockInv`, `WInv`, `new_inv` — the invariants and their establishment;
+* §1 `AInv`, `LockInv`, `WriteableInv`, `new_inv` — the invariants and their establishment;
 * §2 `poll_input_legal` — every parser call `poll_input` makes is legal (C03's preconditions), so
   no Rust panic site and no model fuel guard is reachable, and the invariants are kept; the bytes
   fed to the parser are exactly the bytes taken from the transport (`transport_read_spec`);
@@ -17,7 +17,7 @@ Over the literal poll-level model `Model/Async.lean` of `async_io::Request`
   buffer;
 * §4 `writeable_*`, `output_gate` — `writeable` is monotone, set by `new` iff the role has at most
   one input stream, set by `poll_input` only on the final stream; `writeable()` never panics and
-  completes only with the flag set *under `WInv`* (`writeable_ready_sets_flag_partial`; the
+  completes only with the flag set *under `WriteableInv`* (`writeable_ready_sets_flag_partial`; the
   unrestricted statement is false after a failed read: `writeable_ready_sets_flag_full_false`);
   `output_stream` yields a writer iff `writeable` and the type is an output stream of the role;
 * §5 `eof_enters`, `eof_persists`, `eof_persists_flush` — end of stream is sticky;
@@ -37,8 +37,8 @@ theorem AInv_iff (r : AReq) : AInv r ↔ (SInv r.sp ∧ 24 ≤ r.sp.cap) := Iff.
 theorem LockInv_iff (r : AReq) (m : MutexSt) :
     LockInv r m ↔ ((r.lock = .held ↔ m = some 0) ∧ (r.sp.output = [] → r.lock = .none)) := Iff.rfl
 
-theorem WInv_iff (r : AReq) :
-    WInv r ↔ ((r.sp.stream = none → r.writeable = true) ∧
+theorem WriteableInv_iff (r : AReq) :
+    WriteableInv r ↔ ((r.sp.stream = none → r.writeable = true) ∧
       (r.sp.parsed ≠ [] → r.isFinalStream = true → r.writeable = true)) := Iff.rfl
 
 /-- `Request::new` on an invariant stream parser with the minimum buffer. -/
@@ -50,7 +50,7 @@ theorem new_inv_fresh (cap : Nat) (req : Req.Request) (input : Bytes) (mc : Nat)
     (hlen : input.length ≤ cap) (hid : req.id < 65536) (hcap : 24 ≤ cap) :
     AInv (AReq.new (Parser.fromParser cap req input mc)) ∧
     LockInv (AReq.new (Parser.fromParser cap req input mc)) none ∧
-    WInv (AReq.new (Parser.fromParser cap req input mc)) :=
+    WriteableInv (AReq.new (Parser.fromParser cap req input mc)) :=
   ⟨new_ainv (C03S.fromParser_inv cap req input mc hlen hid) hcap,
     new_lockInv _ (fun h => nomatch h), new_winv cap req input mc⟩
 
@@ -316,7 +316,7 @@ theorem writeable_setStream {r r' : AReq} {s : Nat} (h : r.setStream s = some r'
 valid to set")` cannot fire —, and keeps the invariants. -/
 theorem writeable_poll_safe {r : AReq} {started : Bool} {m : MutexSt} {t : Transport} {r' : AReq}
     {b : Bool} {m' : MutexSt} {t' : Transport} {res : ORes} (hinv : AInv r) (hl : LockInv r m)
-    (hw : WInv r) (hstart : started = true → r.isFinalStream = true)
+    (hw : WriteableInv r) (hstart : started = true → r.isFinalStream = true)
     (h : r.writeablePoll started m t = (r', b, m', t', res)) :
     (∀ s, res ≠ .panic s) ∧ (r.writeable = true → r'.writeable = true) ∧ AInv r' ∧ LockInv r' m' ∧
       (res = .pending → r'.isFinalStream = true ∧ (r'.sp.parsed ≠ [] → r'.writeable = true)) := by
@@ -331,34 +331,34 @@ def writeable_ready_sets_flag_full : Prop :=
     (r.sp.stream = none → r.writeable = true) → (started = true → r.isFinalStream = true) →
     r.writeablePoll started m t = (r', b, m', t', .ready) → r'.writeable = true
 
-/-- **`writeable()` completes only with the flag set** — provided `WInv` holds: stream data of the
-final stream is never buffered while `writeable` is unset.  `WInv` holds for a new request and is
+/-- **`writeable()` completes only with the flag set** — provided `WriteableInv` holds: stream data of the
+final stream is never buffered while `writeable` is unset.  `WriteableInv` holds for a new request and is
 kept by `set_stream`, `consume` and every `poll_input` that does not fail (`winv_*` below). -/
 theorem writeable_ready_sets_flag_partial {r : AReq} {started : Bool} {m : MutexSt} {t : Transport}
     {r' : AReq} {b : Bool} {m' : MutexSt} {t' : Transport} (hinv : AInv r) (hl : LockInv r m)
-    (hw : WInv r) (hstart : started = true → r.isFinalStream = true)
+    (hw : WriteableInv r) (hstart : started = true → r.isFinalStream = true)
     (h : r.writeablePoll started m t = (r', b, m', t', .ready)) : r'.writeable = true :=
   (writeablePoll_spec hinv hl hw hstart h).2.2.2.2.2.1 rfl
 
 theorem winv_new (cap : Nat) (req : Req.Request) (input : Bytes) (mc : Nat) :
-    WInv (AReq.new (Parser.fromParser cap req input mc)) := new_winv cap req input mc
+    WriteableInv (AReq.new (Parser.fromParser cap req input mc)) := new_winv cap req input mc
 
 theorem winv_setStream {r r' : AReq} {s : Nat} {m : MutexSt} (h : r.setStream s = some r')
-    (hinv : AInv r) (hl : LockInv r m) (hw : WInv r) : WInv r' :=
+    (hinv : AInv r) (hl : LockInv r m) (hw : WriteableInv r) : WriteableInv r' :=
   (setStream_inv h hinv hl hw).2.2.1
 
-theorem winv_consume {r : AReq} (hw : WInv r) (k : Nat) :
-    WInv { r with sp := r.sp.consumeStream k } := by
+theorem winv_consume {r : AReq} (hw : WriteableInv r) (k : Nat) :
+    WriteableInv { r with sp := r.sp.consumeStream k } := by
   refine ⟨hw.1, fun hp hf => hw.2 (fun hx => hp ?_) hf⟩
   show (r.sp.consumeStream k).parsed = []
   rw [consumeStream_parsed, hx]; simp
 
-/-- `poll_input` keeps `WInv` unless it returns an error; the half "no active stream ⇒ writeable"
+/-- `poll_input` keeps `WriteableInv` unless it returns an error; the half "no active stream ⇒ writeable"
 is kept unconditionally. -/
 theorem winv_pollInput {r : AReq} {dest : Option Nat} {m : MutexSt} {t : Transport} {r' : AReq}
-    {m' : MutexSt} {t' : Transport} {res : IRes} (hinv : AInv r) (hl : LockInv r m) (hw : WInv r)
+    {m' : MutexSt} {t' : Transport} {res : IRes} (hinv : AInv r) (hl : LockInv r m) (hw : WriteableInv r)
     (h : r.pollInput dest m t = (r', m', t', res)) :
-    (r'.sp.stream = none → r'.writeable = true) ∧ ((∀ e, res ≠ .err e) → WInv r') :=
+    (r'.sp.stream = none → r'.writeable = true) ∧ ((∀ e, res ≠ .err e) → WriteableInv r') :=
   pollInput_winv hinv hl hw h
 
 /-! ### The counterexample (also reproduced on the crate)
@@ -386,7 +386,7 @@ def cxR2 : AReq := (cxR1.pollInput none none cxT).1
 def cxM2 : MutexSt := (cxR1.pollInput none none cxT).2.1
 def cxT2 : Transport := (cxR1.pollInput none none cxT).2.2.1
 
-theorem cx_setup : AInv cxR1 ∧ LockInv cxR1 none ∧ WInv cxR1 ∧ cxR1.writeable = false ∧
+theorem cx_setup : AInv cxR1 ∧ LockInv cxR1 none ∧ WriteableInv cxR1 ∧ cxR1.writeable = false ∧
     cxR1.sp.stream = some 8 := by
   refine ⟨⟨⟨by decide +kernel, by decide +kernel, by decide +kernel, ?_,
     Or.inr ⟨8, by decide +kernel, by decide +kernel⟩, by decide +kernel⟩, by decide +kernel⟩,
@@ -831,7 +831,7 @@ section Examples
 /-- A Responder request (id 1) right after `Request::new`, 64-byte buffer. -/
 def exR : AReq := AReq.new (Parser.fromParser 64 { id := 1, role := 1, flags := 0, env := [] } [] 10)
 
-example : AInv exR ∧ LockInv exR none ∧ WInv exR ∧ exR.writeable = true :=
+example : AInv exR ∧ LockInv exR none ∧ WriteableInv exR ∧ exR.writeable = true :=
   ⟨(new_inv_fresh 64 _ [] 10 (by decide) (by decide) (by decide)).1,
    (new_inv_fresh 64 _ [] 10 (by decide) (by decide) (by decide)).2.1,
    (new_inv_fresh 64 _ [] 10 (by decide) (by decide) (by decide)).2.2, by decide⟩
